@@ -29,19 +29,28 @@ pub fn canon(v: Value) -> Value {
 
 /// Path of the first difference between two JSON values (None if equal).
 pub fn first_diff(a: &Value, b: &Value) -> Option<String> {
-    fn go(a: &Value, b: &Value, path: &mut String) -> bool {
+    // keys of data maps (rule names, variables) are abstracted so that classes stay coarse
+    const MAPS: [&str; 6] = ["unused_entries", "rules", "server_achievements_dict", "mutators", "<vars>", "raw"];
+    fn keyclass(k: &str, parent: &str) -> String {
+        if MAPS.contains(&parent) || k.len() > 28 || !k.chars().all(|c| c.is_ascii_alphanumeric() || c == '_') || k.chars().next().map_or(true, |c| c.is_ascii_digit() || c.is_ascii_uppercase() && k.len() > 12) {
+            "<key>".to_string()
+        } else {
+            k.to_string()
+        }
+    }
+    fn go(a: &Value, b: &Value, path: &mut String, parent: &str) -> bool {
         match (a, b) {
             (Value::Object(x), Value::Object(y)) => {
                 for (k, v) in x {
                     match y.get(k) {
                         None => {
-                            path.push_str(&format!(".{}<missing>", keyclass(k)));
+                            path.push_str(&format!(".{}<missing>", keyclass(k, parent)));
                             return true;
                         }
                         Some(w) => {
                             let n = path.len();
-                            path.push_str(&format!(".{}", keyclass(k)));
-                            if go(v, w, path) {
+                            path.push_str(&format!(".{}", keyclass(k, parent)));
+                            if go(v, w, path, k) {
                                 return true;
                             }
                             path.truncate(n);
@@ -50,7 +59,7 @@ pub fn first_diff(a: &Value, b: &Value) -> Option<String> {
                 }
                 for k in y.keys() {
                     if !x.contains_key(k) {
-                        path.push_str(&format!(".{}<unexpected>", keyclass(k)));
+                        path.push_str(&format!(".{}<unexpected>", keyclass(k, parent)));
                         return true;
                     }
                 }
@@ -64,32 +73,23 @@ pub fn first_diff(a: &Value, b: &Value) -> Option<String> {
                 for (v, w) in x.iter().zip(y.iter()) {
                     let n = path.len();
                     path.push_str("[]");
-                    if go(v, w, path) {
+                    if go(v, w, path, parent) {
                         return true;
                     }
                     path.truncate(n);
                 }
                 false
             }
-            _ => {
-                if a != b {
-                    true
-                } else {
-                    false
-                }
-            }
-        }
-    }
-    // keys that are data (rule names etc.) are abstracted so that classes stay coarse
-    fn keyclass(k: &str) -> String {
-        if k.len() > 24 || k.chars().any(|c| !(c.is_ascii_alphanumeric() || c == '_')) {
-            "<key>".to_string()
-        } else {
-            k.to_string()
+            _ => a != b,
         }
     }
     let mut p = String::new();
-    if go(a, b, &mut p) {
+    // a bare map of variables at the root has only data keys
+    let root_parent = match (a, b) {
+        (Value::Object(x), _) if x.values().all(|v| v.is_string()) && !x.is_empty() => "<vars>",
+        _ => "",
+    };
+    if go(a, b, &mut p, root_parent) {
         Some(if p.is_empty() { "<root>".into() } else { p })
     } else {
         None
@@ -196,4 +196,41 @@ pub fn panic_kind(msg: &str) -> String {
         }
     }
     clip(&out, 100)
+}
+
+/// Generic "decode" exploration: generate a server state (field choice points,
+/// <= `bound` deviations), run the real query against the reference server in
+/// order and loss-free, and require the result to equal the state.
+/// `norm` is applied to both sides (used to drop fields the statement leaves open).
+#[allow(clippy::too_many_arguments)]
+pub fn explore_decode<S, T>(
+    ctx: &mut Ctx,
+    bound: usize,
+    tag: &str,
+    gen: impl Fn(&mut crate::vnet::Chooser) -> S,
+    serve: impl Fn(&S) -> Box<dyn crate::vnet::Responder>,
+    query: impl Fn() -> gamedig::GDResult<T>,
+    expect: impl Fn(&S) -> T,
+    norm: impl Fn(T) -> T,
+) where
+    T: PartialEq + std::fmt::Debug + serde::Serialize + Clone,
+{
+    let label = ctx.case_label.clone();
+    crate::explore::explore(
+        ctx,
+        &crate::explore::ExploreCfg::bound(bound),
+        |prefix| {
+            let mut ch = crate::vnet::Chooser::new(prefix);
+            let state = gen(&mut ch);
+            let server = serve(&state);
+            let x = crate::run::run_query(server, Box::new(crate::vnet::Faithful), ch, &query);
+            (x.map_ok(&norm), state)
+        },
+        |ctx, x, state| {
+            let exp = norm(expect(state));
+            if check_equal(ctx, x, &exp, tag) {
+                ctx.sample(serde_json::json!({"case": label, "choices": x.choices(), "wire_events": x.log.len(), "result": clip(&to_json(&exp).to_string(), 300)}));
+            }
+        },
+    );
 }
